@@ -230,7 +230,82 @@ func IndexLoops(fn *ssa.Function) []*IndexLoop {
 			out = append(out, l)
 		}
 	}
+	for _, l := range out {
+		l.elementOffset()
+		l.throughReslice()
+	}
 	return append(out, rangeFuncLoops(fn)...)
+}
+
+// elementOffset: a loop that counts n = len(s) .. 1 and reads s[n-1] visits the elements
+// 0 .. len(s)-1. When every element access to the bounding slice inside the loop uses the
+// counter plus one and the same constant, the bounds are shifted to describe the elements.
+func (l *IndexLoop) elementOffset() {
+	if l.LenOf == nil || l.Index == nil {
+		return
+	}
+	off, seen, consistent := 0, false, true
+	for b := range l.Body {
+		for _, in := range b.Instrs {
+			ia, ok := in.(*ssa.IndexAddr)
+			if !ok || ia.X != l.LenOf {
+				continue
+			}
+			k := 0
+			switch x := ia.Index.(type) {
+			case *ssa.BinOp:
+				c, isK := constInt(x.Y)
+				if x.X != l.Index || !isK || (x.Op != token.ADD && x.Op != token.SUB) {
+					consistent = false
+					continue
+				}
+				k = c
+				if x.Op == token.SUB {
+					k = -c
+				}
+			default:
+				if ia.Index != l.Index {
+					consistent = false
+					continue
+				}
+			}
+			if seen && k != off {
+				consistent = false
+			}
+			off, seen = k, true
+		}
+	}
+	if seen && consistent && off != 0 {
+		l.Lo, l.HiOff = l.Lo+off, l.HiOff-off
+	}
+}
+
+// throughReslice expresses a loop over sub := base[low : len(base)-c] in terms of base:
+// the indices low+Lo .. len(base)-(HiOff+c).
+func (l *IndexLoop) throughReslice() {
+	for i := 0; i < 3; i++ {
+		sl, ok := l.LenOf.(*ssa.Slice)
+		if !ok || sl.Max != nil {
+			return
+		}
+		low := 0
+		if sl.Low != nil {
+			k, ok := constInt(sl.Low)
+			if !ok {
+				return
+			}
+			low = k
+		}
+		c := 0
+		if sl.High != nil {
+			x, k, ok := lenMinus(sl.High)
+			if !ok || x != sl.X {
+				return
+			}
+			c = k
+		}
+		l.LenOf, l.Lo, l.HiOff = sl.X, l.Lo+low, l.HiOff+c
+	}
 }
 
 // CallsInLoop lists call instructions inside the loop body.
